@@ -56,6 +56,7 @@ type ImportInfo struct {
 	Statement      string   // Original import statement
 	ImportedNames  []string // Names imported (for from imports)
 	Alias          string   // Alias used (if any)
+	IsFromImport   bool     // True for "from module import name" statements
 	IsRelative     bool     // True for relative imports
 	Level          int      // Level for relative imports (number of dots)
 	Line           int      // Line number where import occurs
